@@ -1149,15 +1149,15 @@ func (p *proposalShard) getProposal(clientID uint64,
 	return p.takeProposal(clientID, seriesID, key, now, true)
 }
 
-func (p *proposalShard) borrowProposal(clientID uint64,
-	seriesID uint64, key uint64, now uint64) *RequestState {
-	return p.takeProposal(clientID, seriesID, key, now, false)
-}
-
 func (p *proposalShard) takeProposal(clientID uint64,
 	seriesID uint64, key uint64, now uint64, remove bool) *RequestState {
 	p.mu.Lock()
 	defer p.mu.Unlock()
+	return p.takeProposalLocked(clientID, seriesID, key, now, remove)
+}
+
+func (p *proposalShard) takeProposalLocked(clientID uint64,
+	seriesID uint64, key uint64, now uint64, remove bool) *RequestState {
 	if p.stopped {
 		return nil
 	}
@@ -1174,7 +1174,13 @@ func (p *proposalShard) takeProposal(clientID uint64,
 }
 
 func (p *proposalShard) committed(clientID uint64, seriesID uint64, key uint64) {
-	if ps := p.borrowProposal(clientID, seriesID, key, p.getTick()); ps != nil {
+	now := p.getTick()
+	// the request stays in the pending table, it is notified while the lock is
+	// held so that it can not expire, be released and be reused for another
+	// proposal in between
+	p.mu.Lock()
+	defer p.mu.Unlock()
+	if ps := p.takeProposalLocked(clientID, seriesID, key, now, false); ps != nil {
 		verifGate("proposalShard.committed")
 		ps.committed()
 	}
